@@ -134,6 +134,10 @@ func TestFaultEnumeration(t *testing.T) {
 	rapid.Check(t, func(t *rapid.T) {
 		defer catchAbort()
 		maxFile := genMaxFile(t)
+		withPrune := rapid.IntRange(0, 3).Draw(t, "withPrune") == 0
+		if withPrune && !known(sigPruneFault) {
+			maxFile = rapid.SampledFrom([]uint32{1024, 1536, 2048}).Draw(t, "maxfilePrune")
+		}
 		mode := rapid.SampledFrom([]string{"never", "always"}).Draw(t, "flushmode")
 		setMode := func(db database.DB) {
 			if mode == "always" {
@@ -186,7 +190,6 @@ func TestFaultEnumeration(t *testing.T) {
 			return nil
 		})
 		rg := &opGen{e: re, maxDepth: 3, uniq: g.uniq}
-		withPrune := rapid.IntRange(0, 3).Draw(t, "withPrune") == 0
 		rg.noPrune = !withPrune || known(sigPruneFault)
 		if withPrune && known(sigPruneFault) {
 			recFault.Excluded() // known finding: PruneBlocks in a transaction whose commit fails
